@@ -94,6 +94,10 @@ type Stream struct {
 	// headerListSize is the running RFC 7540 6.5.2 size of the header block
 	// being decoded, summed across the HEADERS frame and its CONTINUATIONs.
 	headerListSize int
+	// weReset is set when the server itself reset the stream. The peer may
+	// have sent more frames on it before it saw the RST_STREAM.
+	weReset bool
+
 	// blockFields counts the fields decoded so far in the header block that
 	// is arriving, over all of its frames: a dynamic table size update is
 	// only allowed before the first one.
@@ -147,6 +151,7 @@ func NewStream(id uint32, win int32) *Stream {
 	strm.origType = 0
 	strm.headerListSize = 0
 	strm.blockFields = 0
+	strm.weReset = false
 
 	return strm
 }
